@@ -141,6 +141,14 @@ func (cs *State) catchupReplay(csHeight int64) error {
 	var msg *TimedWALMessage
 	dec := WALDecoder{gr}
 
+	// Decode everything up to the end of the WAL before handing anything to the
+	// state machine. Replaying a message can commit a block, and finalizeCommit
+	// then appends #ENDHEIGHT (and the next height's round steps) to the WAL. If
+	// the WAL ends in a partial record, that marker would be written behind the
+	// partial record and be cut off by the repair in OnStart, although its
+	// WriteSync succeeded. Detect the corruption first, so that the WAL is
+	// repaired before the replay writes to it.
+	var msgs []*TimedWALMessage
 LOOP:
 	for {
 		msg, err = dec.Decode()
@@ -153,7 +161,10 @@ LOOP:
 		case err != nil:
 			return err
 		}
+		msgs = append(msgs, msg)
+	}
 
+	for _, msg := range msgs {
 		// NOTE: since the priv key is set when the msgs are received
 		// it will attempt to eg double sign but we can just ignore it
 		// since the votes will be replayed and we'll get to the next step
